@@ -300,8 +300,18 @@ Definition recv_dispatch (e : ep) (f : frame) (o0 : outcome) (utf8 : bool) : ep 
         end
     end.
 
+(* _is_fragment_of_unknown_stream: a PAYLOAD fragment (FOLLOWS set) which continues neither a frame of a registered
+   stream nor a request that is being reassembled is dropped instead of being buffered *)
+Definition stray_fragment (e : ep) (f : frame) : bool :=
+  match f with
+  | FPayload sid _ true _ _ _ _ =>
+      match tget (table e) sid, cache_get (cachek e) sid with None, None => true | _, _ => false end
+  | _ => false
+  end.
+
 (* reassembly first: fragmentable frames go through the cache *)
 Definition recv_frame (e : ep) (f : frame) (o : outcome) (utf8 : bool) : ep * list effect :=
+  if stray_fragment e f then (e, []) else
   if is_fragmentable f then
     let '(c', a) := cache_append (cachek e) f in
     let e1 := {| sc := sc e; table := table e; objs := objs e; cachek := c' |} in
